@@ -24,6 +24,14 @@ def enum(name, src, qs=1, ts=16, **kw):
     return d
 
 
+def vg(src, qs=2, ts=8, name="vg", **kw):
+    """the same harness, unsanitized, under valgrind (memcheck, --partial-loads-ok=no) for a wall-clock budget: byte-exact detection of
+    accesses outside heap blocks that does not depend on what the code under test knows about sanitizers"""
+    d = dict(name=name, sources=src, lib="plain", valgrind=True, quick=dict(shards=qs), thorough=dict(shards=ts))
+    d.update(kw)
+    return d
+
+
 def rc(name, src, qcases, tcases, qs=4, ts=16, max_size=100, **kw):
     d = dict(name=name, sources=src, rapidcheck=True, link=RC,
              quick=dict(shards=qs, cases=qcases, max_size=max_size),
@@ -41,6 +49,7 @@ PROPS = {
         assumptions=COMMON_ASSUME,
         targets=[
             enum("enum", ["props/C18_enum.cpp"], qs=8, ts=16),
+            vg(["props/C18_enum.cpp"]),
             rc("rc", ["props/C18_rc.cpp"], 400, 6000, qs=4, ts=16),
         ],
     ),
@@ -52,6 +61,7 @@ PROPS = {
         assumptions=COMMON_ASSUME,
         targets=[
             enum("enum", ["props/C19_enum.cpp", "shims/rings.c"], qs=12, ts=16),
+            vg(["props/C19_enum.cpp", "shims/rings.c"]),
             rc("rc", ["props/C19_rc.cpp", "shims/rings.c"], 300, 6000, qs=4, ts=16),
         ],
     ),
@@ -63,6 +73,7 @@ PROPS = {
         assumptions=COMMON_ASSUME,
         targets=[
             enum("enum", ["props/C16_enum.cpp"], qs=8, ts=16),
+            vg(["props/C16_enum.cpp"]),
             enum("fast", ["props/C16_enum.cpp"], qs=0, ts=16, lib="fast", cxxflags=["-DVP_FAST", "-O2"]),
         ],
     ),
@@ -74,6 +85,7 @@ PROPS = {
         assumptions=COMMON_ASSUME + ["buffers are presented with used == size, so 'end of the buffer' is unambiguous"],
         targets=[
             enum("enum", ["props/C14_enum.cpp"], qs=12, ts=16),
+            vg(["props/C14_enum.cpp"]),
             enum("fast", ["props/C14_enum.cpp"], qs=0, ts=16, lib="fast", cxxflags=["-DVP_FAST", "-O2"]),
         ],
     ),
@@ -85,6 +97,7 @@ PROPS = {
         assumptions=COMMON_ASSUME + ["native order is little-endian on this host; the big-endian-host branches are not exercised"],
         targets=[
             enum("enum", ["props/C15_enum.cpp", "shims/bf_table.c"], qs=8, ts=16, cflags=["-DCXX_ALLOW_TYPE_PUNNING"]),
+            vg(["props/C15_enum.cpp", "shims/bf_table.c"]),
             enum("noswap", ["props/C15_enum.cpp", "shims/bf_table.c"], qs=8, ts=16, noswap=True),
             enum("O0", ["props/C15_enum.cpp", "shims/bf_table.c"], qs=8, ts=16, cflags=["-O0"]),
             enum("uchar", ["props/C15_enum.cpp", "shims/bf_table.c"], qs=8, ts=16, cflags=["-funsigned-char"]),   # the ABI of most embedded targets: plain char is unsigned   # accessors compiled without optimisation: locals live in (poisoned) stack slots
@@ -99,7 +112,7 @@ PROPS = {
              "boundaries, garbage prefix + delimiter + 3 frames, error injection at every position; non-trivial = payload containing END or ESC, or a garbage prefix that leaves "
              "the decoder in a non-initial state (ends in ESC, invalid escape, no start octet); distinct by string",
         assumptions=COMMON_ASSUME + ["resynchronisation oracle: delivered frames are attributed by the source offset at which the decode call ends (DESIGN section 3)"],
-        targets=[enum("enum", ["props/C12_enum.cpp"], qs=12, ts=16)],
+        targets=[enum("enum", ["props/C12_enum.cpp"], qs=12, ts=16), vg(["props/C12_enum.cpp"])],
     ),
     "C17": dict(
         level="exploration",
@@ -108,7 +121,7 @@ PROPS = {
              "aux region); non-trivial = a script with a partial transfer or interruption before completion, or mixed octet/chunk endpoints; distinct by the serialised case",
         assumptions=COMMON_ASSUME + ["drivers never transfer more than asked; hard errors are sticky; transient 0/EINTR/EAGAIN results are only generated for the chunk API "
                                      "(the per-octet plumbing documents no retry); aux buffers designate the region [offset, used)"],
-        targets=[enum("enum", ["props/C17_enum.cpp"], qs=12, ts=16), enum("lib", ["props/C17_lib_enum.cpp"], qs=8, ts=16)],
+        targets=[enum("enum", ["props/C17_enum.cpp"], qs=12, ts=16), enum("lib", ["props/C17_lib_enum.cpp"], qs=8, ts=16), vg(["props/C17_enum.cpp"]), vg(["props/C17_lib_enum.cpp"], name="vg-lib")],
     ),
     "C13": dict(
         level="exploration",
@@ -117,7 +130,7 @@ PROPS = {
              "for the decoders, judged by reference prefix encoders and the designated octets; non-trivial = a buffer with offset > 0 and free space, a chunk list with an empty chunk, "
              "a fragmentation that splits the prefix, a pre-filled destination, or a length >= 128 / over the maximum; distinct by the serialised case",
         assumptions=COMMON_ASSUME + ["payload lengths >= 1 (the property's range); zero-length designations are counted as don't-care"],
-        targets=[enum("enum", ["props/C13_enum.cpp"], qs=12, ts=16)],
+        targets=[enum("enum", ["props/C13_enum.cpp"], qs=12, ts=16), vg(["props/C13_enum.cpp"])],
     ),
     "C10": dict(
         level="exploration",
@@ -126,7 +139,7 @@ PROPS = {
              "store/fetch incl. refused and overflow pairs, every single-octet alteration, reset; oracle = model image + reference checksum over the whole image + access log; "
              "non-trivial = aux buffer smaller than the data or non-zero placement; distinct by configuration",
         assumptions=COMMON_ASSUME + ["the medium callbacks behave (full transfers) in C10; faults are C11's subject"],
-        targets=[enum("enum", ["props/C10_enum.cpp"], qs=12, ts=16)],
+        targets=[enum("enum", ["props/C10_enum.cpp"], qs=12, ts=16), vg(["props/C10_enum.cpp"])],
     ),
     "C11": dict(
         level="fault_enumeration",
@@ -135,7 +148,7 @@ PROPS = {
              "before the cut (all whole-write prefixes and all torn positions); non-trivial = a crash point strictly inside the operation or a fault at a call index other than the first; "
              "distinct by the serialised case",
         assumptions=COMMON_ASSUME + ["a torn write leaves a prefix of the write on the medium (octet granularity); one fault per operation"],
-        targets=[enum("enum", ["props/C11_enum.cpp"], qs=12, ts=16)],
+        targets=[enum("enum", ["props/C11_enum.cpp"], qs=12, ts=16), vg(["props/C11_enum.cpp"])],
     ),
     "C20": dict(
         level="exploration",
@@ -147,6 +160,7 @@ PROPS = {
                                      "are only checked for memory safety, termination and leaks"],
         targets=[
             enum("enum", ["props/C20_enum.cpp"], qs=12, ts=16, extra_objs=["sx_ledger.o"]),
+            vg(["props/C20_enum.cpp"], extra_objs=["sx_ledger.o"]),
             rc("rc", ["props/C20_rc.cpp"], 1500, 30000, qs=4, ts=16, max_size=200, extra_objs=["sx_ledger.o"]),
             dict(name="fuzz", sources=["props/C20_fuzz.cpp"], fuzz=True, lib="fuzz", corpus="C20", dict="corpus/C20.dict", max_len=128, fuzz_args=["-only_ascii=1"], extra_objs=["sx_ledger.o"],
                  quick=dict(shards=4, runs=150000), thorough=dict(shards=16, runs=4000000, max_total_time=240)),
@@ -159,7 +173,7 @@ PROPS = {
              "serialisation in the table's byte order, bit-identical read-back, storage unchanged on refusal); non-trivial = a refused set, a set exactly at a constraint bound, "
              "a big-endian or callback-backed table, or a one-past-the-end handle; distinct by (table, handle, value, operation)",
         assumptions=COMMON_ASSUME + ["areas always have a read callback; the unchecked variant only receives correctly typed values (the property's domain)"],
-        targets=[enum("enum", ["props/C01_enum.cpp"], qs=12, ts=16)],
+        targets=[enum("enum", ["props/C01_enum.cpp"], qs=12, ts=16), vg(["props/C01_enum.cpp"])],
     ),
     "C02": dict(
         level="exploration",
@@ -168,7 +182,7 @@ PROPS = {
              "word patterns, applied as an evolving history; non-trivial = a window that partially overlaps a register while carrying a bound+-1 / non-finite pattern, or that spans "
              "two areas or a hole with a non-identity pattern; distinct by the serialised case",
         assumptions=COMMON_ASSUME + ["when several failure classes are present any of them may be reported, but with that class' first address inside the request"],
-        targets=[enum("enum", ["props/C02_enum.cpp"], qs=12, ts=16)],
+        targets=[enum("enum", ["props/C02_enum.cpp"], qs=12, ts=16), vg(["props/C02_enum.cpp"])],
     ),
     "C03": dict(
         level="exploration",
@@ -177,7 +191,7 @@ PROPS = {
              "a read that starts mid-area in a write-only area or crosses an area edge, or an iteration whose start lies in a gap/hole/empty area or strictly inside a multi-word register; "
              "distinct by (table, window)",
         assumptions=COMMON_ASSUME + ["address windows never wrap around 2^32"],
-        targets=[enum("enum", ["props/C03_enum.cpp"], qs=12, ts=16)],
+        targets=[enum("enum", ["props/C03_enum.cpp"], qs=12, ts=16), vg(["props/C03_enum.cpp"])],
     ),
     "C04": dict(
         level="exploration",
@@ -186,7 +200,7 @@ PROPS = {
              "rule must be violated and carry the first index of that rule), post-conditions after success, UNINITIALISED after failure; non-trivial = a one-step perturbation that yields "
              "at most one violation, or a grid description with exactly one violation; distinct by description",
         assumptions=COMMON_ASSUME + ["with several violated rules any of them may be reported (with its own first index)"],
-        targets=[enum("enum", ["props/C04_enum.cpp"], qs=12, ts=16)],
+        targets=[enum("enum", ["props/C04_enum.cpp"], qs=12, ts=16), vg(["props/C04_enum.cpp"])],
     ),
     "C05": dict(
         level="exploration",
@@ -203,7 +217,7 @@ PROPS = {
              "doc/regp.txt + the library's own receiver reports identical fields; non-trivial = a frame with payload (rich in SLIP control octets) or a non-zero response code, or a length "
              "across a varint boundary; distinct by the serialised case",
         assumptions=COMMON_ASSUME + ["the reference encoder follows doc/regp.txt; where the document is silent (block-size field of payload-less responses) it follows the library's emitter"],
-        targets=[enum("enum", ["props/C08_enum.cpp"], qs=8, ts=16)],
+        targets=[enum("enum", ["props/C08_enum.cpp"], qs=8, ts=16), vg(["props/C08_enum.cpp"])],
     ),
     "C06": dict(
         level="exploration",
@@ -223,6 +237,7 @@ PROPS = {
         assumptions=COMMON_ASSUME + ["a frame that declares a payload checksum but carries no payload, and a payload-less write response with non-zero block size, are don't-care (document silent)"],
         targets=[
             enum("enum", ["props/C07_enum.cpp"], qs=12, ts=16),
+            vg(["props/C07_enum.cpp"]),
             dict(name="fuzz", sources=["props/C09_fuzz.cpp"], fuzz=True, lib="fuzz", corpus="C09", max_len=600,
                  quick=dict(shards=2, runs=40000), thorough=dict(shards=8, runs=2000000, max_total_time=240)),
         ],
@@ -237,6 +252,7 @@ PROPS = {
                                      "replies to over-long or unallocatable frames that are not well-formed requests are don't-care"],
         targets=[
             enum("enum", ["props/C09_enum.cpp"], qs=12, ts=16),
+            vg(["props/C09_enum.cpp"]),
             dict(name="fuzz", sources=["props/C09_fuzz.cpp"], fuzz=True, lib="fuzz", corpus="C09", max_len=1400,
                  quick=dict(shards=4, runs=60000), thorough=dict(shards=16, runs=3000000, max_total_time=300)),
         ],
